@@ -124,6 +124,7 @@ class C11:
         for key in chosen:
             frame[key] = DEL if rng.random() < 0.3 else rng.choice(VALS[key])
         before = read_views(env, keys)
+        had_value = {k for k in chosen if k in env}
         raised = False
         exit_exc = rng.random() < 0.25
         if not hasattr(self, "_path"):
@@ -171,6 +172,19 @@ class C11:
                     again = read_views(env, keys)
                     if again != inside:
                         self.report_diff(rec, "NOT-RESTORED-INSIDE-OUTER-SCOPE", inside, again, frame, case_ref, keys)
+                if kind in ("swap-kw", "swap-dict") and rng.random() < 0.3:
+                    # the body itself removes or re-assigns a variable the scope set (an `unset`-like alias, `del $X`)
+                    cands = [k for k in frame if frame[k] is not DEL and k in had_value and k in env]
+                    if cands:
+                        k = rng.choice(cands)
+                        how = rng.choice(["del", "pop", "assign"])
+                        if how == "del":
+                            del env[k]
+                        elif how == "pop":
+                            env.pop(k)
+                        else:
+                            env[k] = rng.choice(VALS[k])
+                        rec.count("swapped_variable_changed_by_the_body_" + how)
                 if exit_exc:
                     rec.count("exception_exits")
                     raise Boom()
